@@ -142,6 +142,10 @@ def spec_call(ex, st, e, cx, k):
         cn = e.args[1].value if isinstance(e.args[1], ast.Constant) else e.args[1].id
         ids = [ex.repo.class_ids[cn]]
         return k(st, SV(BOOL, z3.And(v.z != 0, ex.clsof(v.z) == ids[0])))
+    if nm == 'isa':
+        v = ex.pure(st, e.args[0], cx)
+        cn = e.args[1].value
+        return k(st, SV(BOOL, ex.isinstance_cond(v, cn)))
     if nm == 'content':
         # content(list) : its element sequence as an immutable seq value
         v = ex.pure(st, e.args[0], cx)
@@ -601,9 +605,9 @@ def dispatch(ex, st, obj, mname, args, kwargs, cx, node, k, getter=False):
     ci, fi = find(cname, mname)
     if fi is not None:
         c = ex.reg.primary(fi.key)
-        if c is not None:
+        if c is not None and c.covers_overrides:
             return call_with_contract(ex, st, fi, c, [obj] + args, kwargs, cx, node, k)
-    # no base contract: case split over the dynamic class
+    # case split over the dynamic class: each implementation by its own contract (or inlined)
     cands = []
     for sub in sorted(ex.repo.subclasses.get(cname, ())):
         sci, sfi = find(sub, mname)
@@ -614,7 +618,7 @@ def dispatch(ex, st, obj, mname, args, kwargs, cx, node, k, getter=False):
     groups = {}
     for sub, sfi in cands:
         groups.setdefault(sfi.key, (sfi, []))[1].append(sub)
-    if len(groups) > 6:
+    if len(groups) > 16:
         raise VCError(f'dynamic dispatch of {cname}.{mname} over {len(groups)} implementations needs a base contract')
     outs = []
     for key, (sfi, subs) in groups.items():
